@@ -280,7 +280,7 @@ theorem step_elim (s : St) (op : Op) (hs : SInv s) (P : St × List Out → Prop)
     (upEvents : ∀ c m l, c < s.n → (s.conns c).disc = false → (s.conns c).up = true → op = .msg c m →
         (m = .statsDesc ∧ l = ev2 .rawStats c 0 ++ ev2 .switchDesc c 0) ∨ (∃ x, m = .barrierReply x ∧ l = ev2 .barrierIn c x) ∨
         (∃ x t e, m = .error x t e ∧ l = ev2 .errorIn c x) ∨ (∃ n, m = .portStatus n ∧ l = ev2 .portStatus c n) ∨
-        (∃ n, m = .packetIn n ∧ l = ev2 .packetIn c n) → P (s, l))
+        (∃ n, m = .packetIn n ∧ l = ev2 .packetIn c n) ∨ (∃ x, m = .echoReply x ∧ l = []) → P (s, l))
     (upHello : ∀ c, c < s.n → (s.conns c).disc = false → (s.conns c).up = true → op = .msg c .hello →
         (s.conns c).broken = false → P ({ s with nextXid := s.nextXid + 1 }, [.sent c OFPT_FEATURES_REQUEST s.nextXid]))
     (upHelloBroken : ∀ c, c < s.n → (s.conns c).disc = false → (s.conns c).up = true → op = .msg c .hello →
@@ -298,7 +298,7 @@ theorem step_elim (s : St) (op : Op) (hs : SInv s) (P : St × List Out → Prop)
     (echoBroken : ∀ c x, c < s.n → (s.conns c).disc = false → op = .msg c (.echoRequest x) →
         (s.conns c).broken = true → P (disconnect R s c true))
     (hsIgnored : ∀ c m, c < s.n → (s.conns c).disc = false → (s.conns c).up = false → op = .msg c m →
-        (m = .hello ∧ (s.conns c).frSent = true) ∨ m = .statsDesc ∨ (∃ n, m = .packetIn n) ∨
+        (m = .hello ∧ (s.conns c).frSent = true) ∨ m = .statsDesc ∨ (∃ n, m = .packetIn n) ∨ (∃ x, m = .echoReply x) ∨
         (∃ x, m = .barrierReply x ∧ (s.conns c).barrier = none) ∨
         (∃ x t e, m = .error x t e ∧ ((s.conns c).barrier = none ∨ ¬ ((s.conns c).barrier = some (some x) ∧ t = 1 ∧ e = 1))) ∨
         (∃ n, m = .portStatus n ∧ (s.conns c).deferred = none) → P (s, []))
@@ -412,6 +412,7 @@ theorem step_elim (s : St) (op : Op) (hs : SInv s) (P : St × List Out → Prop)
         rw [hs_features_ok _ _ _ _ h3' hb']; exact hsFeatures c0 d h1' h3' h4' rfl hb'
     | statsDesc => simpa [dispatchHs] using hsIgnored c0 .statsDesc h1' h3' h4' rfl (by simp)
     | packetIn n => simpa [dispatchHs] using hsIgnored c0 (.packetIn n) h1' h3' h4' rfl (by simp)
+    | echoReply x => simpa [dispatchHs] using hsIgnored c0 (.echoReply x) h1' h3' h4' rfl (by simp)
     | echoRequest x =>
       by_cases hb : (s.conns c0).broken = true
       · simpa [dispatchHs, sendRaw, h3', hb] using echoBroken c0 x h1' h3' rfl hb
